@@ -344,6 +344,12 @@ pub fn apply_fault(image: &[u8], f: &Fault, hlen: usize, chunk: usize, other: Op
                 }
             }
         }
+        Fault::Copy { from, to, len } => {
+            if from + len <= img.len() && to + len <= img.len() {
+                let src: Vec<u8> = img[*from..from + len].to_vec();
+                img[*to..to + len].copy_from_slice(&src);
+            }
+        }
         Fault::Multi { faults } => {
             for g in faults {
                 img = apply_fault(&img, g, hlen, chunk, other);
@@ -420,5 +426,44 @@ pub fn fault_kind(f: &Fault) -> &'static str {
         Fault::RawBytes { .. } => "raw-bytes",
         Fault::Fill { .. } => "field-fill",
         Fault::Multi { .. } => "compound",
+        Fault::Copy { .. } => "transplant",
     }
+}
+
+
+// ------------------------------------------------------------------ archives of the independent writer
+
+/// An archive holding the model's files, produced by the format model's own writer with the choices the description
+/// leaves open drawn from `seed`: how pieces are split into blocks and interleaved, file ids (0.., or large and
+/// non-sequential, or decreasing), an index that lists every block or only the first of each run, empty content blocks,
+/// a trailing empty compressed block on aligned streams. Encrypted for the recipients of `cfg`.
+pub fn foreign_image(cfg: &ArcCfg, model: &Model, chunk: usize, block: usize, seed: u64) -> Vec<u8> {
+    let files: Vec<(String, Vec<u8>)> = model.order.iter().map(|n| (n.clone(), model.files[n].clone())).collect();
+    let mut prng = crate::rng::Rng::new(seed);
+    let mut plan = Vec::new();
+    for _ in 0..prng.range(0, 12) {
+        if !files.is_empty() {
+            plan.push((prng.usize_below(files.len()), prng.range(1, 3 * chunk as u64) as usize));
+        }
+    }
+    let ids: Vec<u64> = match prng.below(4) {
+        0 => (0..files.len() as u64).collect(),
+        1 => (1..=files.len() as u64).collect(),
+        2 => (0..files.len() as u64).map(|i| (1u64 << 32) + 7 + i * 0x1_0000_0001).collect(),
+        _ => (0..files.len() as u64).map(|i| u64::MAX - i * 3).collect(),
+    };
+    let every_block = prng.chance(1, 3);
+    let empty_blocks = prng.chance(1, 4);
+    let close_full = prng.chance(1, 2);
+    crate::seams::fired("archive_of_the_independent_writer");
+    let stream = refmla::well_formed_stream_full(&files, &plan, &ids, every_block, empty_blocks);
+    let mut r2 = crate::rng::Rng::new(seed ^ 0x5555_1234);
+    let mut key = [0u8; 32];
+    r2.fill(&mut key);
+    let mut nonce = [0u8; 8];
+    r2.fill(&mut nonce);
+    let mut eph = [0u8; 32];
+    r2.fill(&mut eph);
+    let spec = refmla::EncSpec { key, nonce, eph_priv: eph, recipients: (0..cfg.recipients).map(|i| refmla::pub_of(&crate::model::key_bytes(cfg.key_seed, i))).collect() };
+    refmla::wrap_opts(&stream, cfg.layers & 3, cfg.level, Some(&spec), refmla::Params { chunk, block }, close_full)
 }
